@@ -8,7 +8,10 @@ sys.path.insert(0, os.path.dirname(os.path.abspath(__file__)))
 sys.path.insert(0, os.path.dirname(os.path.dirname(os.path.abspath(__file__))))
 import common  # noqa: E402
 
-PROPS = [f"C{i:02d}" for i in range(1, 21)]
+import json
+
+with open(os.path.join(common.VERIF, "MANIFEST.json")) as _f:
+    PROPS = [c["property_id"] for c in json.load(_f)["checks"]]
 
 
 def main():
